@@ -386,6 +386,23 @@ impl<K: Kit> Drv<K> {
         self.solve_iters(0)
     }
 
+    /// Mutates the planner's public parameter fields the way a user can between calls:
+    /// extension step, rewiring radius and connection radius are multiplied by `f`.
+    pub fn scale_params(&mut self, f: f64) {
+        match &mut self.planner {
+            AnyPlanner::Rrt(p) => p.max_distance *= f,
+            AnyPlanner::Connect(p) => p.max_distance *= f,
+            AnyPlanner::Star(p) => {
+                p.max_distance *= f;
+                p.search_radius *= f;
+            }
+            AnyPlanner::Prm(p) => p.connection_radius *= f,
+        }
+        self.params.max_distance *= f;
+        self.params.search_radius *= f;
+        self.params.connection_radius *= f;
+    }
+
     pub fn snapshot(&self) -> Snap {
         let tn = |s: &K::S, p: Option<usize>, c: f64| TNode { s: K::flat(s), parent: p, cost: c };
         match &self.planner {
